@@ -127,11 +127,18 @@ func compareSubversion(va, vb string) int {
 	var a, b string
 	var anum, bnum bool
 	var res int
-	for res == 0 {
+	for first := true; res == 0; first = false {
 		a, va, anum = nextFrag(va)
 		b, vb, bnum = nextFrag(vb)
 		if a == "" && b == "" {
 			break
+		}
+		if !first {
+			// a side that ran out of fragments compares as the
+			// number zero against a numeric fragment, like in dpkg
+			// ("1a" == "1a0", "1." == "1.0")
+			anum = anum || a == ""
+			bnum = bnum || b == ""
 		}
 		if anum && bnum {
 			res = cmpNumeric(a, b)
